@@ -238,26 +238,33 @@ static void fresh(void)
 }
 
 static int last_new_id;
+static int wmode;
+static json_object *w_new_leaf(void);
+static void w_declare(const char *op, int a, int ret);
 static void op_new(char kind)
 {
 	call_t *c = mk("new");
 	int id = least_free(1);
 	last_new_id = id;
-	json_object *o = kind == 'o' ? json_object_new_object() : kind == 'a' ? json_object_new_array_ext(2) : json_object_new_int(id);
+	json_object *o = kind == 'o' ? json_object_new_object() : kind == 'a' ? json_object_new_array_ext(2) : wmode ? w_new_leaf() : json_object_new_int(id);
 	node[id] = o;
 	held[id] = 1;
 	/* the destruction callback the property speaks of */
 	pending_id = 0;
-	if (id & 1)
+	if (wmode && json_object_get_type(o) == json_type_double)
+		id = 0; /* (a double's user-data slot may hold its retained text: no destructor token on doubles in world mode) */
+	else if (id & 1)
 		json_object_set_userdata(o, cookie_for(id, id), ud_delete);
 	else
 		json_object_set_serializer(o, NULL, cookie_for(id, id), ud_delete);
 	if (pending_id)
 		nulltok[pending_id] = pending_nulltok;
-	c->a = id;
+	c->a = last_new_id;
 	c->tok = id;
 	c->kind = kind == 'o' ? "o" : kind == 'a' ? "a" : "l";
 	emit(c);
+	if (wmode && kind == 'l')
+		w_declare("wleaf", last_new_id, 1);
 }
 static void op_get(int a)
 {
@@ -354,11 +361,23 @@ static void op_borrow(int a, int k, int i)
 static void op_setud(int a, int tok)
 {
 	call_t *c = mk("setud");
+	if (wmode)
+	{
+		if (json_object_get_type(node[a]) == json_type_double)
+			return;
+		if (tok == 0)
+			return;
+		tok |= 1; /* (a custom serializer would change what the node prints) */
+	}
 	c->a = a;
 	c->tok = tok;
 	/* (the previous registration's callback runs inside these calls: its token is looked up before the table changes) */
 	pending_id = 0;
-	if (tok & 1)
+	if (tok == 0)
+		/* a constant text as the node's serialization, no destruction callback: nothing to fire later, and a deep copy
+		 * (which duplicates the text) must release its duplicate itself */
+		json_object_set_serializer(node[a], json_object_userdata_to_json_string, (void *)"7.000", NULL);
+	else if (tok & 1)
 		json_object_set_userdata(node[a], cookie_for(a, tok), ud_delete);
 	else
 		json_object_set_serializer(node[a], ser_fn, cookie_for(a, tok), ud_delete);
@@ -371,6 +390,8 @@ static int copy2(json_object *src, json_object *parent, const char *key, size_t 
 	int rc = json_c_shallow_copy_default(src, parent, key, index, dst);
 	if (rc < 0)
 		return rc;
+	if (json_object_get_type(src) == json_type_double)
+		return rc; /* (world mode: a double's user data is its retained text, which the library copies itself) */
 	return 2; /* "userdata handled": the copy carries none */
 }
 static void assign_ids(json_object *o, call_t *c, int *from)
@@ -529,6 +550,8 @@ static void op_end(void)
 
 /* script ops separated by ';' :  N kind | G a | P a | O a b k | Q a b k | D a k | A a b | U a b i |
  *   I a b i | X a i cnt | B a k i | S a tok | C a deflt | T a b np (type val)*  */
+static int wreplay_op(char op, const int *v, int n);
+static void wreplay_observe(void);
 static int replay(const char *path, long start)
 {
 	FILE *f = fopen(path, "r");
@@ -619,8 +642,15 @@ static int replay(const char *path, long start)
 				op_patch(v[0], ft, fv, nf, pt, pv, np);
 				break;
 			}
-			default: fprintf(stderr, "bad op %s\n", tok); return 2;
+			default:
+				if (!wmode || wreplay_op(op, v, n))
+				{
+					fprintf(stderr, "bad op %s\n", tok);
+					return 2;
+				}
 			}
+			if (wmode)
+				wreplay_observe();
 		}
 		op_end();
 	}
@@ -795,6 +825,577 @@ static void rand_walk(json_object *o, int *pt, int *pv, int *np)
 	}
 	*np = n;
 }
+/* ============================================================================================
+ * world mode: the same client, but leaves carry values of every type and the client also OBSERVES:
+ * typed dumps with node identities, serialization under a flag set, equality, pointer lookups,
+ * visitor order, lengths, array sort, and it parses texts into new trees.  Judged by TraceWorld.tla
+ * against the composed model World.tla (RefHeap + leaf values + JsonValue + Serializer + Grammar). */
+#include "json_object_private.h"
+#include "json_visit.h"
+#include "json_object_iterator.h"
+#include "linkhash.h"
+#include <inttypes.h>
+#include <float.h>
+typedef struct
+{
+	int t; /* 0 int64, 1 uint64, 2 bool, 3 string, 4 double */
+	int64_t i;
+	uint64_t u;
+	int b;
+	char s[160];
+	int slen;
+	double d;
+	char ret[64];
+} wval_t;
+static wval_t wpending;
+static void w_rand_val(wval_t *v, int type)
+{
+	static const int64_t ints[] = {0, 1, -1, 7, -42, 2147483647, -2147483648LL, 2147483648LL, INT64_MAX, INT64_MIN, 4294967296LL, 1000000007};
+	static const double dbls[] = {0.0, -0.0, 1.5, -2.5, 0.1, 1e21, 1e-7, 123456789.125, 5e-324, DBL_MAX, 1e22, 3.0, -1e300, 2.2250738585072014e-308};
+	memset(v, 0, sizeof *v);
+	v->t = type >= 0 ? type : (int)vh_below(5);
+	switch (v->t)
+	{
+	case 0: v->i = vh_below(3) ? ints[vh_below(sizeof ints / sizeof ints[0])] : (int64_t)vh_rand(); break;
+	case 1: v->u = vh_below(2) ? UINT64_MAX - vh_below(3) : vh_below(2) ? (uint64_t)INT64_MAX + vh_below(3) : vh_rand(); break;
+	case 2: v->b = (int)vh_below(2); break;
+	case 3:
+	{
+		static const char alphabet[] = "ab\"\\/\b\n\x01\x7f\xc3\xa9\xf0 k1";
+		v->slen = vh_below(8) == 0 ? 100 + (int)vh_below(50) : (int)vh_below(12);
+		for (int j = 0; j < v->slen; j++)
+			v->s[j] = vh_below(6) == 0 ? (char)vh_below(256) : alphabet[vh_below(sizeof alphabet - 1)];
+		break;
+	}
+	default:
+		if (vh_below(3) == 0)
+		{
+			/* any finite bit pattern */
+			uint64_t bits = vh_rand();
+			if (((bits >> 52) & 0x7ff) == 0x7ff)
+				bits &= ~(1ull << 62);
+			memcpy(&v->d, &bits, 8);
+		}
+		else
+			v->d = dbls[vh_below(sizeof dbls / sizeof dbls[0])];
+		/* now and then the node is made with a text of its own (as the parser does) */
+		if (vh_below(3) == 0)
+			snprintf(v->ret, sizeof v->ret, vh_below(2) ? "%.20e" : "%.17g", v->d);
+		/* (a double's own text always shows that it is one - as the parser's does) */
+		if (v->ret[0] && !strpbrk(v->ret, ".eE"))
+			strcat(v->ret, vh_below(2) ? ".000" : ".0");
+		break;
+	}
+}
+static json_object *w_construct(const wval_t *v)
+{
+	switch (v->t)
+	{
+	case 0: return (v->i >= INT32_MIN && v->i <= INT32_MAX && vh_below(2)) ? json_object_new_int((int32_t)v->i) : json_object_new_int64(v->i);
+	case 1: return json_object_new_uint64(v->u);
+	case 2: return json_object_new_boolean(v->b);
+	case 3: return json_object_new_string_len(v->s, v->slen);
+	default: return v->ret[0] ? json_object_new_double_s(v->d, v->ret) : json_object_new_double(v->d);
+	}
+}
+static void w_emit_val(const char *key, const wval_t *v)
+{
+	char buf[48];
+	ev_open_obj(key);
+	switch (v->t)
+	{
+	case 0:
+	case 1:
+		ev_str("t", "int");
+		if (v->t == 0 && v->i < 0)
+		{
+			ev_bool("neg", 1);
+			snprintf(buf, sizeof buf, "%" PRIu64, (uint64_t)0 - (uint64_t)v->i);
+		}
+		else
+		{
+			ev_bool("neg", 0);
+			snprintf(buf, sizeof buf, "%" PRIu64, v->t == 0 ? (uint64_t)v->i : v->u);
+		}
+		ev_digits("d", buf);
+		break;
+	case 2:
+		ev_str("t", "bool");
+		ev_bool("b", v->b);
+		break;
+	case 3:
+		ev_str("t", "string");
+		ev_bytes("s", v->s, (size_t)v->slen);
+		break;
+	default:
+	{
+		ev_str("t", "double");
+		ev_dbl("bits", v->d);
+		int fl = snprintf(buf, sizeof buf, "%.17g", v->d);
+		ev_bytes("fmt", buf, (size_t)fl);
+		ev_bytes("ret", v->ret, strlen(v->ret));
+		break;
+	}
+	}
+	ev_close_obj();
+}
+/* the leaf values of the bounded model MCWorld.tla (LeafSeq): 0, -7, the string a", true, 1.5 */
+static int w_forced = -1;
+static void w_model_val(wval_t *v, int k)
+{
+	memset(v, 0, sizeof *v);
+	switch (k)
+	{
+	case 0: v->t = 0; v->i = 0; break;
+	case 1: v->t = 0; v->i = -7; break;
+	case 2: v->t = 3; memcpy(v->s, "a\"", 2); v->slen = 2; break;
+	case 3: v->t = 2; v->b = 1; break;
+	default: v->t = 4; v->d = 1.5; break;
+	}
+}
+static json_object *w_new_leaf(void)
+{
+	if (w_forced >= 0)
+		w_model_val(&wpending, w_forced);
+	else
+		w_rand_val(&wpending, -1);
+	return w_construct(&wpending);
+}
+/* "wleaf": the value node a was constructed with;  "wset": json_object_set_<type>(a, value) returned ret */
+static void w_declare(const char *op, int a, int ret)
+{
+	ev_begin("op");
+	ev_str("op", op);
+	ev_int("a", a);
+	w_emit_val("val", &wpending);
+	ev_int("ret", ret);
+	ev_end();
+}
+static int w_type_of(json_object *o) /* wval_t.t of a leaf node; -1 otherwise */
+{
+	switch (json_object_get_type(o))
+	{
+	case json_type_int: return 0;
+	case json_type_boolean: return 2;
+	case json_type_string: return 3;
+	case json_type_double: return 4;
+	default: return -1;
+	}
+}
+static void w_set(int a)
+{
+	json_object *o = node[a];
+	int own = w_type_of(o);
+	if (own < 0)
+		return;
+	int t = vh_below(8) == 0 ? (int)vh_below(5) : own == 0 ? (int)vh_below(2) : own;
+	if (w_forced >= 0)
+	{
+		w_model_val(&wpending, w_forced);
+		t = wpending.t;
+	}
+	else
+		w_rand_val(&wpending, t);
+	wpending.ret[0] = 0; /* a set value has no text of its own */
+	int ret;
+	switch (t)
+	{
+	case 0: ret = (wpending.i >= INT32_MIN && wpending.i <= INT32_MAX && vh_below(2)) ? json_object_set_int(o, (int)wpending.i) : json_object_set_int64(o, wpending.i); break;
+	case 1: ret = json_object_set_uint64(o, wpending.u); break;
+	case 2: ret = json_object_set_boolean(o, wpending.b); break;
+	case 3: ret = vh_below(2) && !memchr(wpending.s, 0, (size_t)wpending.slen) ? json_object_set_string(o, wpending.s) : json_object_set_string_len(o, wpending.s, wpending.slen); break;
+	default: ret = json_object_set_double(o, wpending.d); break;
+	}
+	w_declare("wset", a, ret);
+}
+/* typed dump; the members of an object are walked by one of four iteration forms */
+static void w_dump(const char *key, json_object *o)
+{
+	ev_open_obj(key);
+	switch (json_object_get_type(o))
+	{
+	case json_type_null: ev_str("t", "null"); break;
+	case json_type_boolean:
+		ev_str("t", "bool");
+		ev_bool("b", json_object_get_boolean(o));
+		break;
+	case json_type_int:
+	{
+		char buf[40];
+		ev_str("t", "int");
+		int64_t s = json_object_get_int64(o);
+		uint64_t u = json_object_get_uint64(o);
+		ev_bool("neg", s < 0);
+		snprintf(buf, sizeof buf, "%" PRIu64, s < 0 ? (uint64_t)0 - (uint64_t)s : u);
+		ev_digits("d", buf);
+		break;
+	}
+	case json_type_double:
+	{
+		char fb[64];
+		double d = json_object_get_double(o);
+		ev_str("t", "double");
+		ev_dbl("bits", d);
+		int fl = snprintf(fb, sizeof fb, "%.17g", d);
+		ev_bytes("fmt", fb, (size_t)fl);
+		/* (in world mode a double never carries a destructor cookie: user data on it is its retained text) */
+		const char *ud = o->_to_json_string == json_object_double_to_json_string ? NULL : (const char *)json_object_get_userdata(o);
+		ev_bytes("ret", ud ? ud : "", ud ? strlen(ud) : 0);
+		break;
+	}
+	case json_type_string:
+		ev_str("t", "string");
+		ev_bytes("s", json_object_get_string(o), (size_t)json_object_get_string_len(o));
+		break;
+	case json_type_array:
+	{
+		ev_str("t", "array");
+		ev_open_arr("e");
+		size_t n = json_object_array_length(o);
+		for (size_t i = 0; i < n; i++)
+			w_dump(NULL, json_object_array_get_idx(o, i));
+		ev_close_arr();
+		break;
+	}
+	case json_type_object:
+	{
+		ev_str("t", "object");
+		ev_open_arr("m");
+#define W_MEMBER(k, v) \
+	do \
+	{ \
+		ev_open_obj(NULL); \
+		ev_bytes("k", (k), strlen(k)); \
+		w_dump("v", (v)); \
+		ev_close_obj(); \
+	} while (0)
+		switch (vh_below(4))
+		{
+		case 0:
+		{
+			json_object_object_foreach(o, k, v) W_MEMBER(k, v);
+			break;
+		}
+		case 1:
+		{
+			struct json_object_iterator it = json_object_iter_begin(o), end = json_object_iter_end(o);
+			for (; !json_object_iter_equal(&it, &end); json_object_iter_next(&it))
+				W_MEMBER(json_object_iter_peek_name(&it), json_object_iter_peek_value(&it));
+			break;
+		}
+		case 2:
+		{
+			struct lh_entry *e;
+			lh_foreach(json_object_get_object(o), e) W_MEMBER((const char *)lh_entry_k(e), (json_object *)lh_entry_v(e));
+			break;
+		}
+		default:
+		{
+			struct json_object_iter it;
+			json_object_object_foreachC(o, it) W_MEMBER(it.key, it.val);
+			break;
+		}
+		}
+		ev_close_arr();
+		break;
+	}
+	}
+	ev_close_obj();
+}
+static void w_ids(json_object *o, long long *out, int *n, int cap)
+{
+	if (!o)
+		return;
+	if (*n < cap)
+		out[(*n)++] = id_of(o);
+	if (json_object_get_type(o) == json_type_object)
+	{
+		json_object_object_foreach(o, k, v)
+		{
+			(void)k;
+			w_ids(v, out, n, cap);
+		}
+	}
+	else if (json_object_get_type(o) == json_type_array)
+		for (size_t j = 0; j < json_object_array_length(o); j++)
+			w_ids(json_object_array_get_idx(o, j), out, n, cap);
+}
+static int w_flags(int f)
+{
+	return (f & 1 ? JSON_C_TO_STRING_SPACED : 0) | (f & 2 ? JSON_C_TO_STRING_PRETTY : 0) | (f & 4 ? JSON_C_TO_STRING_NOZERO : 0) |
+	       (f & 8 ? JSON_C_TO_STRING_PRETTY_TAB : 0) | (f & 16 ? JSON_C_TO_STRING_NOSLASHESCAPE : 0) | (f & 32 ? JSON_C_TO_STRING_COLOR : 0);
+}
+static void w_obs(int a)
+{
+	static long long ids[512];
+	int n = 0;
+	if (unfolded_size(node[a], 0) > 300)
+		return;
+	w_ids(node[a], ids, &n, 512);
+	ev_begin("op");
+	ev_str("op", "obs");
+	ev_int("a", a);
+	w_dump("dump", node[a]);
+	ev_ints("ids", ids, (size_t)n);
+	ev_end();
+}
+static void w_ser(int a)
+{
+	if (unfolded_size(node[a], 0) > 25)
+		return;
+	int f = (int)vh_below(64);
+	size_t len = 0;
+	const char *t = json_object_to_json_string_length(node[a], w_flags(f), &len);
+	if (!t || len > 600)
+		return;
+	ev_begin("op");
+	ev_str("op", "ser");
+	ev_int("a", a);
+	ev_int("f", f);
+	ev_bytes("text", t, strlen(t));
+	ev_int("len", (long long)len);
+	ev_end();
+}
+static void w_eq(int a, int b)
+{
+	ev_begin("op");
+	ev_str("op", "eq");
+	ev_int("a", a);
+	ev_int("b", b);
+	ev_bool("res", json_object_equal(node[a], node[b]));
+	ev_bool("res2", json_object_equal(node[b], node[a]));
+	ev_end();
+}
+static void w_ptrget(int a)
+{
+	int pt[4], pv[4], np = (int)vh_below(4);
+	rand_walk(node[a], pt, pv, &np);
+	if (np < 3 && vh_below(3) == 0)
+	{
+		/* one more token that may or may not exist */
+		pt[np] = (int)vh_below(3);
+		pv[np] = pt[np] == 0 ? 1 + (int)vh_below(4) : (int)vh_below(3);
+		np++;
+	}
+	char path[128];
+	path_string(path, pt, pv, np);
+	json_object *res = (json_object *)&path; /* (must be overwritten on success) */
+	int rc = vh_below(2) ? json_pointer_get(node[a], path, &res) : json_pointer_getf(node[a], &res, "%s", path);
+	ev_begin("op");
+	ev_str("op", "ptrget");
+	ev_int("a", a);
+	ev_open_arr("path");
+	for (int j = 0; j < np; j++)
+	{
+		ev_open_obj(NULL);
+		ev_str("t", pt[j] == 0 ? "k" : pt[j] == 1 ? "i" : "-");
+		ev_int("v", pv[j]);
+		ev_close_obj();
+	}
+	ev_close_arr();
+	ev_int("ret", rc == 0 ? 0 : -1);
+	ev_int("b", rc == 0 ? id_of(res) : 0);
+	ev_end();
+}
+static long long wcalls[1024];
+static int nwcalls;
+static int w_visit_cb(json_object *jso, int flags, json_object *parent, const char *key, size_t *index, void *arg)
+{
+	(void)parent;
+	(void)key;
+	(void)index;
+	(void)arg;
+	if (nwcalls < 1024)
+		wcalls[nwcalls++] = (flags & JSON_C_VISIT_SECOND) ? -(long long)id_of(jso) : (long long)id_of(jso);
+	return JSON_C_VISIT_RETURN_CONTINUE;
+}
+static void w_visit(int a)
+{
+	if (unfolded_size(node[a], 0) > 400)
+		return;
+	nwcalls = 0;
+	int rc = json_c_visit(node[a], 0, w_visit_cb, NULL);
+	ev_begin("op");
+	ev_str("op", "visit");
+	ev_int("a", a);
+	ev_ints("calls", wcalls, (size_t)nwcalls);
+	ev_int("ret", rc);
+	ev_end();
+}
+static void w_len(int a)
+{
+	json_object *o = node[a];
+	ev_begin("op");
+	ev_str("op", "len");
+	ev_int("a", a);
+	ev_int("len", json_object_get_type(o) == json_type_object ? json_object_object_length(o) : (long long)json_object_array_length(o));
+	ev_end();
+}
+static int w_cmp_id(const void *x, const void *y)
+{
+	int a = id_of(*(json_object *const *)x), b = id_of(*(json_object *const *)y);
+	return a < b ? -1 : a > b;
+}
+static void w_asort(int a)
+{
+	json_object_array_sort(node[a], w_cmp_id);
+	ev_begin("op");
+	ev_str("op", "asort");
+	ev_int("a", a);
+	ev_end();
+}
+/* serialize a held tree (any layout flags, no colour), now and then with extra white space or a repeated member, and
+ * parse the text: a new tree of fresh nodes */
+static int w_parse_flags = -1; /* >= 0: exactly the text the serializer gives under these flags */
+static void w_parse(int a)
+{
+	if (unfolded_size(node[a], 0) > 20 || nlive() > 150)
+		return;
+	size_t len = 0;
+	const char *t = json_object_to_json_string_length(node[a], w_flags(w_parse_flags >= 0 ? w_parse_flags : (int)vh_below(32)), &len);
+	if (!t || len > 500 || len != strlen(t))
+		return;
+	char text[700];
+	size_t n = 0;
+	if (w_parse_flags < 0 && vh_below(3) == 0)
+		text[n++] = " \t\n\r"[vh_below(4)];
+	memcpy(text + n, t, len);
+	n += len;
+	if (w_parse_flags < 0 && text[n - 1] == '}' && n > 2 && vh_below(3) == 0)
+	{
+		/* a repeated member name: the first position is kept, the last value wins */
+		const char *extra = vh_below(2) ? ",\"k1\":[7]}" : ", \"k2\" : \"z\\u00e9\"}";
+		if (text[n - 2] == '{' || (n >= 3 && text[n - 2] == ' ' && text[n - 3] == '{'))
+			extra++; /* (an empty object: no comma) */
+		n--;
+		memcpy(text + n, extra, strlen(extra));
+		n += strlen(extra);
+	}
+	if (w_parse_flags < 0 && vh_below(3) == 0)
+		text[n++] = ' ';
+	text[n] = 0;
+	call_t *c = mk("parse");
+	json_object *o = json_tokener_parse(text);
+	ev_begin("op");
+	ev_str("op", "parse");
+	ev_bytes("text", text, n);
+	if (o)
+	{
+		int from = 1;
+		assign_ids(o, c, &from);
+		held[(int)c->newids[0]] = 1;
+	}
+	ev_int("ret", o ? 0 : -1);
+	ev_ints("newids", c->newids, (size_t)c->nnew);
+	w_dump("dump", o);
+	ev_end();
+}
+static int pick_held_leaf(void)
+{
+	int cand[MAXID], n = 0;
+	for (int i = 1; i <= MAXID; i++)
+		if (node[i] && held[i] > 0 && w_type_of(node[i]) >= 0)
+			cand[n++] = i;
+	return n ? cand[vh_below((uint32_t)n)] : 0;
+}
+/* replayed model histories (MCWorld.tla):  L k = new leaf with model value k | W a k = set | Y a = sort | Z a f = parse the
+ * serialization of a under flags f;  after EVERY replayed call each held node is dumped, one is serialized, two are compared */
+static int wreplay_op(char op, const int *v, int n)
+{
+	(void)n;
+	switch (op)
+	{
+	case 'L':
+		w_forced = v[0];
+		op_new('l');
+		w_forced = -1;
+		return 0;
+	case 'W':
+		w_forced = v[1];
+		w_set(v[0]);
+		w_forced = -1;
+		return 0;
+	case 'Y': w_asort(v[0]); return 0;
+	case 'Z':
+		w_parse_flags = v[1];
+		w_parse(v[0]);
+		w_parse_flags = -1;
+		return 0;
+	default: return 1;
+	}
+}
+static void wreplay_observe(void)
+{
+	int first = 0, second = 0;
+	for (int i = 1; i <= 12; i++)
+		if (node[i] && held[i] > 0)
+		{
+			w_obs(i);
+			if (!first)
+				first = i;
+			else if (!second || vh_below(2))
+				second = i;
+		}
+	if (first)
+	{
+		w_ser(vh_below(2) && second ? second : first);
+		w_visit(first);
+		if (second)
+			w_eq(first, second);
+	}
+}
+static void world_op(void)
+{
+	int a, b;
+	uint32_t r = vh_below(100);
+	if (r < 25)
+	{
+		if ((a = pick_held(0)))
+			w_obs(a);
+	}
+	else if (r < 37)
+	{
+		if ((a = pick_held_leaf()))
+			w_set(a);
+		else if ((a = pick_held(3)))
+			op_borrow(a, 1 + (int)vh_below(4), (int)vh_below(4)); /* (get hold of a leaf inside a container) */
+	}
+	else if (r < 47)
+	{
+		if ((a = pick_held(0)))
+			w_ser(a);
+	}
+	else if (r < 57)
+	{
+		if ((a = pick_held(0)) && (b = pick_held(0)))
+			w_eq(a, b);
+	}
+	else if (r < 67)
+	{
+		if ((a = pick_held(3)))
+			w_ptrget(a);
+	}
+	else if (r < 75)
+	{
+		if ((a = pick_held(0)))
+			w_visit(a);
+	}
+	else if (r < 80)
+	{
+		if ((a = pick_held(3)))
+			w_len(a);
+	}
+	else if (r < 85)
+	{
+		if ((a = pick_held(2)))
+			w_asort(a);
+	}
+	else
+	{
+		if ((a = pick_held(vh_below(3) ? 3 : 0)))
+			w_parse(a);
+	}
+}
 static int drive(int start, int nexec, int nops)
 {
 	const char *seed = getenv("VERIF_SEED");
@@ -807,6 +1408,11 @@ static int drive(int start, int nexec, int nops)
 		{
 			uint32_t r = vh_below(100);
 			int pool = nheld();
+			if (wmode && pool >= 2 && vh_below(100) < 38)
+			{
+				world_op();
+				continue;
+			}
 			if (pool < 3 || (r < 22 && pool < 24 && nlive() < 120))
 			{
 				op_new("oal"[vh_below(3)]);
@@ -890,7 +1496,7 @@ static int drive(int start, int nexec, int nops)
 			else if (r < 90)
 			{
 				if ((a = pick_held(0)))
-					op_setud(a, 1000 + x % 7 * 1000 + i);
+					op_setud(a, !wmode && vh_below(4) == 0 ? 0 : 1000 + x % 7 * 1000 + i);
 			}
 			else if (r < 93)
 			{
@@ -976,6 +1582,16 @@ int c05_main(int argc, char **argv)
 		r = replay(argv[1], atol(argv[2]));
 	else if (argc >= 4 && !strcmp(argv[0], "drive"))
 		r = drive(atoi(argv[1]), atoi(argv[2]), atoi(argv[3]));
+	else if (argc >= 3 && !strcmp(argv[0], "wreplay"))
+	{
+		wmode = 1;
+		r = replay(argv[1], atol(argv[2]));
+	}
+	else if (argc >= 4 && !strcmp(argv[0], "world"))
+	{
+		wmode = 1;
+		r = drive(atoi(argv[1]), atoi(argv[2]), atoi(argv[3]));
+	}
 	vh_on_free = 0;
 	return r;
 }
